@@ -5,6 +5,7 @@ package fakepeer
 
 import (
 	"net/netip"
+	"sync/atomic"
 
 	"github.com/jech/storrent/bitmap"
 	"github.com/jech/storrent/peer"
@@ -21,6 +22,18 @@ type Peer struct {
 	Tor    chan peer.TorEvent
 	Writer chan protocol.Message
 	stop   chan struct{}
+	busy   atomic.Int32 // events received from the mailbox and not yet disposed of
+}
+
+// Idle reports whether everything sent to the peer's mailbox has been
+// answered or forwarded.
+func (fp *Peer) Idle() bool {
+	// order matters: an event leaves the channel before busy is raised, so
+	// look at busy, then the channel, then busy again
+	if fp.busy.Load() != 0 || len(fp.P.Event) != 0 {
+		return false
+	}
+	return fp.busy.Load() == 0 && len(fp.P.Event) == 0
 }
 
 // New creates a serviced fake peer.  Queries are answered from the real
@@ -35,10 +48,15 @@ func New(pieces *piece.Pieces, info []byte, my bitmap.Bitmap, addr netip.AddrPor
 		stop:   make(chan struct{}),
 	}
 	fp.P = peer.VerifNew(pieces, info, my, addr, caps, fp.Tor, fp.Writer)
+	if forward {
+		// manual mode: the harness consumes the mailbox itself with Pop
+		return fp
+	}
 	go func() {
 		for {
 			select {
 			case e := <-fp.P.Event:
+				fp.busy.Add(1)
 				switch q := e.(type) {
 				case peer.PeerGetPex:
 					close(q.Ch)
@@ -50,6 +68,7 @@ func New(pieces *piece.Pieces, info []byte, my bitmap.Bitmap, addr netip.AddrPor
 						fp.Events <- e
 					}
 				}
+				fp.busy.Add(-1)
 			case <-fp.stop:
 				return
 			}
@@ -57,6 +76,19 @@ func New(pieces *piece.Pieces, info []byte, my bitmap.Bitmap, addr netip.AddrPor
 	}()
 	return fp
 }
+
+// Pop takes the oldest command out of the peer's mailbox (manual mode).
+func (fp *Peer) Pop() (peer.PeerEvent, bool) {
+	select {
+	case e := <-fp.P.Event:
+		return e, true
+	default:
+		return nil, false
+	}
+}
+
+// Len is the number of commands waiting in the mailbox (manual mode).
+func (fp *Peer) Len() int { return len(fp.P.Event) }
 
 func (fp *Peer) Stop() {
 	close(fp.stop)
